@@ -43,7 +43,7 @@ CLAIMED = {
          'DESIGN.md §4 C09'),
  'C19': ('exception-safety typestate over the CFG (destroyed -> re-initialised), dominance of the patch unwinder',
          'Static typestate: between basic_json::destroy() and the re-initialisation of *this no call that may throw (callee not noexcept) is reachable; apply_patch constructs its automatic-storage unwinder before the first mutation. Quantifies over all paths through the functions, i.e. every allocation point between the two events. Also: the JSON Patch unwinder rolls back in every state except commit (R15.6). Also: raw allocate() results are protected against every following may-throw operation (R19.2, nothrow inferred from bodies) and heap_string blocks are returned with the size they were requested with (R19.3, symbolic comparison).',
-         'Decides the listed clauses; does not decide that rollback itself cannot fail, nor byte balance of allocate/deallocate.',
+         'Decides the listed clauses; does not decide that rollback itself cannot fail, nor byte balance of allocate/deallocate. Known finding F28 (undo entries recorded after the mutation by an allocating call) is reported as KNOWN-FINDING.',
          'DESIGN.md §4 C19'),
  'C14': ('partial evaluation of the escape writers and of the pointer tokenizer into per-character tables; dominance rules for the index grammar test and the bounds rejection; reachability rule error-store-after-mutation',
          'Static table agreement: all reference-token escape writers and the tokenizer automaton (4 states x 256 characters) are extracted by partial evaluation and must be mutually inverse per RFC 6901; every token-to-index conversion is followed by the leading-zero rejection; every use of the index as an array position is dominated by the exact bounds rejection; no error store is reachable after a document mutation in add/add_if_absent/replace/remove/resolve. Exhaustive over (state, character) cells, conversion sites, position uses and mutation sites. Also: flatten and the patch diff put member names into pointer strings only through escape() (R14.6); end-of-input step of the tokenizer for every state.',
@@ -51,7 +51,7 @@ CLAIMED = {
          'DESIGN.md §4 C14'),
  'C15': ('path rules over the CFG of apply_patch (must-pass-through of the inverse undo entry after every mutation, commit dominance, total dispatch) and of the unwinder',
          'Static path rules: after every mutating jsonpointer call on the target, every path to the next operation passes exactly the inverse undo entry at the same path with the value read before the mutation; commit is assigned only after the loop and every error return marks abort; an unknown op stores an error; the unwinder replays every op_type in reverse with the matching call. Quantifies over all paths through apply_patch, i.e. every failure point of every operation sequence shape. Also: definite_path is evaluated in the state the insertion sees (R15.5), the unwinder rolls back for every state except commit (R15.6, partial evaluation per enumerator), and the jsonpointer operations it relies on have exact bounds and store no error after a mutation (R14.4/R14.5).',
-         'Decides the undo-log structure; does not decide that each inverse restores the exact prior state for all documents, nor the from_diff law.',
+         'Decides the undo-log structure; does not decide that each inverse restores the exact prior state for all documents, nor the from_diff law. Known finding F28 (undo entries recorded after the mutation by an allocating call) is reported as KNOWN-FINDING.',
          'DESIGN.md §4 C15'),
  'C16': ('dominance facts over the CFG of the merge-patch recursion',
          'Static dominance facts of RFC 7386: insertions are control-dependent on a non-null patch member, an existing member is erased unconditionally in the found branch, a non-object patch is returned and a non-object target is reset before the loop, and the inserted value is the recursive merge of the old value (or an empty object). Necessary conditions of the algorithm on every path of the 40-line recursion. Also from_diff: the three emissions sit under exactly their conditions and are must-pass (R16.5).',
